@@ -133,11 +133,31 @@ def main():
     inputs.append([("m.pn", "const A: usize = |:S|;\nconst B: usize = A + 16;\nconst C: usize = B + A;\nstruct S\n{\n\tbuf: [C]u8,\n}\nfn main()\n{\n}\n")])
     # diagnostics located at a type: every type to nesting depth 1 (2 in the thorough tier) in every position, as written
     # and with the type annotation wrapped over lines (the location of an annotation is built from the span of its tokens)
+    type_region = {}     # input index -> (start, end) of the type annotation in the text: a diagnostic about a misplaced or
+    #                      invalid type (E350..E359) must underline text that overlaps it ("covers the offending text")
+
+    def nonws_positions(text):
+        return [k for k, ch in enumerate(text) if not ch.isspace()]
     for (sx, tsrc) in c11.types(2 if thorough else 1):
         for pos in c11.POS:
             src = c11.type_program(pos, tsrc)
+            at = src.rfind(tsrc)
+            end_at = at + len(tsrc)
+            if pos not in ("returned", "externReturned"):
+                # E352 / E354 / E356 underline the declared variable, parameter or member: the name belongs to the region
+                mname = re.search(r"([A-Za-z_][A-Za-z0-9_]*)\s*:\s*$", src[:at])
+                if mname:
+                    at = mname.start(1)
+            type_region[len(inputs)] = (at, end_at)
             inputs.append([("m.pn", src)])
-            inputs.append([("m.pn", relayout(src))])
+            rel = relayout(src)
+            # the same characters apart from white space: carry the region over by counting them
+            nw, nwr = nonws_positions(src), nonws_positions(rel)
+            first = sum(1 for k in nw if k < at)
+            last = sum(1 for k in nw if k < end_at) - 1
+            if len(nw) == len(nwr) and 0 <= first <= last < len(nwr):
+                type_region[len(inputs)] = (nwr[first], nwr[last] + 1)
+            inputs.append([("m.pn", rel)])
     # size and length queries, casts with a target type, wrapped over lines
     for q in ("|:\n[]u8|", "|:\n&\n[4]i32|", "|\nmissing|", "|:\nNope|", "7u8 as\n[2]u8", "7u8 as\n&\nu8", "cast\n7u8", "cast 7u8 as\nbool"):
         inputs.append([("m.pn", "fn main()\n{\n\tvar x: usize =\n%s;\n}\n" % q)])
@@ -163,7 +183,7 @@ def main():
                 "why": "the same tokens laid out one per line get different diagnostics", "files": dict(inputs[j]),
                 "harness_request": reqs[j], "original": inputs[i][0][1], "expected (kind, code)": ci[:12], "got": cj[:12]})
     checked = located = 0
-    for u, rq, a in zip(inputs, reqs, h):
+    for idx, (u, rq, a) in enumerate(zip(inputs, reqs, h)):
         if a.startswith("crash") or a.startswith("panic"):
             dist["crash-or-panic (C02's business)"] += 1
             continue
@@ -191,6 +211,11 @@ def main():
                 # end-of-file locations may be reported on the last real line
                 true_line = min(true_line, src.count("\n"))
             located += 1
+            if idx in type_region and 350 <= code <= 359:
+                rs, re_ = type_region[idx]
+                if not (s < re_ and rs < e):
+                    problems.append("E%d is about the declaration `%s` but underlines `%s` (span %d-%d does not touch it at %d-%d)" % (
+                        code, src[rs:re_][:40], src[s:e][:40], s, e, rs, re_))
             if line != true_line and not (s >= nchars):
                 problems.append("E%d: reported line %d but the span starts on line %d (span %d-%d)" % (code, line, true_line, s, e))
         if problems:
